@@ -8,7 +8,7 @@
 From Coq Require Import List NArith ZArith QArith Bool.
 From Similari Require Import Base.Num Model.Constraints Model.Tracker
      Proofs.TrackerBase Proofs.TrackerPredict Proofs.TrackerInv Proofs.TrackerC01 Proofs.TrackerC03 Proofs.TrackerGc
-     Proofs.TrackerC04 Proofs.TrackerCong Proofs.TrackerSolver.
+     Proofs.TrackerC04 Proofs.TrackerCong Proofs.TrackerSolver Proofs.TrackerVisual.
 Import ListNotations.
 Open Scope N_scope.
 
@@ -89,6 +89,32 @@ Section C04.
     intros r1 r2 E. cbn beta in E. unfold canon_rec in E. inversion E. auto 10.
   Qed.
 End C04.
+
+(* THE VISUAL TRACKERS (see Props/C01.v): scene isolation for the visual step function with ANY association passing the
+   interface check. *)
+Theorem theorems_apply_to_visual_trackers :
+  forall G D2R f c,
+    let solve := given_solver f in
+    (forall s ops, NoDup (ops_uids ops) ->
+       map canon_out (sel_outs s ops (fst (trun_visual G D2R solve c ops)))
+       = map canon_out (fst (trun_visual G D2R solve c (filter_ops s ops)))
+       /\ view c s (snd (trun_visual G D2R solve c ops)) = view c s (snd (trun_visual G D2R solve c (filter_ops s ops))))
+    /\ (forall st scene dets recs st',
+          reach_visual G D2R solve c st -> tstep_visual G D2R solve c st (Predict scene dets) = (ORecords recs, st') ->
+          forall r, In r recs ->
+            r_scene r = scene
+            /\ ((exists t0, In t0 (live st) /\ t_id t0 = r_id r /\ t_scene t0 = scene) \/ next_id st < r_id r)
+            /\ (exists t, In t (live st') /\ t_id t = r_id r /\ t_scene t = scene))
+    /\ (forall s st op, reach_visual G D2R solve c st -> scene_op s op = false ->
+          view c s (snd (tstep_visual G D2R solve c st op)) = view c s st).
+Proof.
+  intros G D2R f c. cbn zeta. split; [|split].
+  - intros s ops Hnd. rewrite !trun_visual_eq. exact (scene_noninterference G D2R _ c s ops Hnd).
+  - intros st scene dets recs st' Hr H. apply reach_visual_iff in Hr. rewrite tstep_visual_eq in H.
+    exact (no_cross_scene_attach G D2R _ c (given_solver_sound_lemma f) _ _ _ _ _ Hr H).
+  - intros s st op Hr Hop. apply reach_visual_iff in Hr. rewrite tstep_visual_eq.
+    exact (other_ops_preserve_view G D2R _ c s st op Hr Hop).
+Qed.
 
 (* Non-vacuity: two scenes in the same image region (the oracle gates every detection to every track), a crowded
    call (3 detections over 2 tracks of scene 7) interleaved with calls of scene 8 and global operations: the
